@@ -157,6 +157,30 @@ PROPS["C11"] = {
     "extraction_drops": ["rule X3 / X2 as listed; log::error! statements; SimpleScheduler, gen_interfaces, Default impls, into_wasm_plugin_fn_map's Arc/HashMap plumbing around the trampoline closure"],
 }
 
+PROPS["C20"] = {
+    "verus_units": ["ffi_serde"],
+    "replay": "ffi_serde",
+    "floor": {"obligations": 17},
+    "trusted_base": [
+        "interner laws: Symbol::as_str and ToSymbol::to_symbol are inverse (axiom_intern_inverse / axiom_str_inverse); Symbol::as_str / to_symbol are external_body models",
+        "opaque models of ExprNodeId, TypeNodeId, EvalStage, Environment<T>, ExtFunction, Rc<T>, RefCell<T> (payloads never inspected by the carriers)",
+        "bincode model: serialize yields wire(x); deserialize accepts only an encoding of its result (third-party wire format, serde derive on FfiValue and the hand-written Serialize/Deserialize impls are NOT examined)",
+        "N7: collect::<Result<Vec<_>,_>>() = Ok(all payloads) if no item is Err else the first Err (helper vx_collect_results verified); N4: format!(..) -> opaque String",
+        "vstd specifications of Vec, String, Option/Result, iterator adapters (iter, into_iter, map, collect)",
+    ],
+    "assumptions": ["f64 equality is bit equality (the conversions move the f64, they never compute on it)"],
+    "not_covered": [
+        "the 'every type decodes to something equal' half: types/serde_impl.rs, interpreter/serde_impl.rs (generic over S: Serializer; meaning defined by a third-party data format)",
+        "bincode round trip deserialize(serialize(x)) == x for FfiValue (assumed shape of the wire model only)",
+    ],
+    "explanation": "C20 value half: to_ffi_value refuses exactly the values that cannot cross (r.is_ok() == crossable(v)) and otherwise produces the structural encoding enc_rel; to_value is total and produces dec_rel; lemma_roundtrip: crossable(v) && enc_rel(v,f) && dec_rel(f,w) ==> val_eq(v,w) (numbers bit-identical, symbols via interner laws, arbitrary nesting, empty aggregates); the four (de)serialize wrappers compose the conversions with bincode and refuse when any argument cannot cross.",
+    "samples": [
+        {"obligation": "Value::to_ffi_value::ensures", "clause": "r.is_ok() == crossable(*self); Ok(f) ==> enc_rel(*self, f)"},
+        {"obligation": "lemma_roundtrip", "clause": "crossable(v) && enc_rel(v,f) && dec_rel(f,w) ==> val_eq(v,w)"},
+    ],
+    "extraction_drops": ["derive(Debug, Clone, Serialize, Deserialize) on FfiValue / derive(Clone, Debug) on Value", "#[cfg(test)] module"],
+}
+
 
 def is_trusted_cut(unit, cut):
     """cuts whose body is external_body (contract assumed) — no canary expected"""
